@@ -179,12 +179,21 @@ extern int mpt_graph_set(MPT_STRUCT(graph) *gr, const char *name, MPT_INTERFACE(
 		}
 		return len;
 	}
-	if (!strcmp(name, "type") || !strcasecmp(name, "gridtype")) {
-		if (!src || !(len = src->_vptr->convert(src, 'c', &gr->grid))) {
+	if (!strcmp(name, "type") || !strcasecmp(name, "grid") || !strcasecmp(name, "gridtype")) {
+		uint8_t val;
+		if (!src) {
 			gr->grid = def_graph.grid;
 			return 0;
 		}
-		return len < 0 ? len : 0;
+		/* numeric grid type, fall back to type character */
+		if ((len = src->_vptr->convert(src, 'y', &val)) == MPT_ERROR(BadType)) {
+			len = src->_vptr->convert(src, 'c', &val);
+		}
+		if (len < 0) {
+			return len;
+		}
+		gr->grid = len ? val : def_graph.grid;
+		return 0;
 	}
 	if (!strcmp(name, "align") || !strcasecmp(name, "alignment")) {
 		const char *v;
